@@ -625,6 +625,32 @@ fn add_path_data<W: Write>(
                 }
             }
 
+            // When decoding, a repeated point does not start a new segment
+            // if it ends the path or the points written before the next type
+            // letter, and it cannot be told apart from a neighbour with the
+            // same position. In these cases the segment cannot be written
+            // implicitly.
+            if i > 0 {
+                let same_pos = |a: Pos, b: Pos| {
+                    let (a, b) = (pos + a, pos + b);
+
+                    a.x as i32 == b.x as i32 && a.y as i32 == b.y as i32
+                };
+
+                let ends_group = control_points
+                    .get(i + 1)
+                    .map_or(true, |next| next.path_type.is_some());
+
+                let repeats_neighbour = same_pos(control_points[i - 1].pos, point.pos)
+                    || control_points
+                        .get(i + 1)
+                        .is_some_and(|next| same_pos(point.pos, next.pos));
+
+                if ends_group || repeats_neighbour {
+                    needs_explicit_segment = true;
+                }
+            }
+
             if needs_explicit_segment {
                 match path_type.kind {
                     SplineType::BSpline => {
